@@ -15,6 +15,10 @@ Contract (documentation only; the sentences are quoted at the top of specs/Setti
   * RegistrySettings.<k>: "If omitted, defaults to the global COMPONENTS.<k> setting."
   * settings are looked up when needed (tests switch COMPONENTS with override_settings and read
     `app_settings`; "we always take the latest value from Django's settings").
+  * get_component_dirs() (public API, the consumer of dirs / app_dirs): the existing directories of
+    COMPONENTS.dirs (default [BASE_DIR/"components"]; (prefix, path) tuples allowed) plus, with include_apps,
+    [app]/<app_dir> of every installed app where that directory exists; "Paths that do not point to
+    directories are ignored"; a relative path is a ValueError (tests/test_loader.py).
   * downstream: dynamic_component_name ("the dynamic component is registered under the name"),
     multiline_tags ("`{{ my_var }}` can span multiple lines"; False leaves django.template.base.tag_re
     alone), template_cache_size ("maximum amount of Django templates to be cached"), autodiscover
@@ -22,18 +26,19 @@ Contract (documentation only; the sentences are quoted at the top of specs/Setti
     reload when files ... change"), libraries ("modules that should be loaded").
 
 Oracle: specs/Settings.tla.  Adm(user, form, base, k) is the SET of admissible results of reading the
-effective setting k; the state machine Set / Unset / Reform / Drop / SetBase / Load / Read / RegRead has
+effective setting k; the state machine Set / Unset / Reform / Drop / SetBase / Load / Read / RegRead / CompDirs has
 Read = Adm(current settings) and TLC checks the theorems DefaultsWhenEmpty, FormIndependent,
-DeterminedUnlessAmbiguous, GivenWins, EmptyIsAValue, ContextBehaviorClosed, AliasEquivalent and the action
+DeterminedUnlessAmbiguous, GivenWins, EmptyIsAValue, ContextBehaviorClosed, AliasEquivalent, DirsTheorems and the action
 properties ReadIsResolve, LocalityProp, SetThenRead, UnsetRestores, ReformNeutral.
 
-spec -> code: MC_X03/MCSpec - the complete settings graph of each of five key groups (every value of the
+spec -> code: MC_X03/MCSpec - the complete settings graph of each of six key groups (every value of the
               group's domains, dict / instance / no COMPONENTS at all); every transition is exported and
               replayed on the real `app_settings`: the source settings are installed with
               django.test.override_settings, every accessor and a registry are read once (so anything the
               library might memoise is warm), the call is made (a change = a nested override_settings),
-              and every accessor of the group / the registry created before the change are read and
-              compared with the admitted sets.
+              and every accessor of the group / the registry created before the change /
+              get_component_dirs() (group "paths": a sandbox with existing, missing and non-directory
+              entries, two BASE_DIRs, a generated installed app) are read and compared with the admitted sets.
               MC_X03/SSpec - every configuration of two key groups, exported with the effects a start-up
               must show; replayed by running AppConfig.ready() on pristine Django template internals
               (stock tag_re, no dynamic component registered, no template cache), and a sample of them
@@ -49,14 +54,19 @@ Not determined by the documentation, therefore never generated or admitted as a 
     ComponentsSettings() - "no limit" and 128 are both admitted in the instance form;
   * whether an invalid global context_behavior reaches a registry that has its own;
   * when an invalid context_behavior surfaces at start-up (the start-up may raise ValueError or not);
+  * the legacy fallback to STATICFILES_DIRS when COMPONENTS.dirs is not given (code only, "TODO_REMOVE_IN_V1";
+    the harness leaves STATICFILES_DIRS empty); dirs entries that are neither str, Path nor a pair;
   * settings are changed through override_settings only (what the repository's tests do) - neither
     in-place mutation of the dict nor assignment to django.conf.settings is exercised;
   * dirs / app_dirs of start-up cases name directories that do not exist; dynamic component names are
     plain identifiers (whether a name is a legal tag under the shorthand formatter is the formatter's business).
 
-Known deviation (classified by Settings!DevAdm, never part of the expected value): every key is resolved as
-`value if value is not None else default`, so {"template_cache_size": None} keeps the limit 128.
-Key `explicit-none-cache-size-in-dict:default-limit-applied`.
+Known deviations (classified by Settings!DevAdm / DevComponentDirs, never part of the expected value):
+  * every key is resolved as `value if value is not None else default`, so {"template_cache_size": None}
+    keeps the limit 128.  Key `explicit-none-cache-size-in-dict:default-limit-applied`.
+  * get_component_dirs() returns the entries of COMPONENTS.dirs (and the default BASE_DIR/components) whether
+    they are directories or not ("Paths that do not point to directories are ignored").
+    Key `dirs-entry-not-a-directory:returned`.
 """
 from __future__ import annotations
 
@@ -84,6 +94,9 @@ SBASE, SNOBASE = "/S/base", "/S/nobase"
 FS = ["/S/d1", "/S/d2", "/S/base/components", "/S/app1/components", "/S/app1/ui", "/DJC/components"]
 APPS = ["/DJC", "/S/app1"]
 APPNAME = "vfx03app"
+PROBEDIRS = ["components", "ui"]             # [app1]/<d>/vfx03_auto_probe.py exists for these
+PROBEMODS = [f"{APPNAME}.{d}.vfx03_auto_probe" for d in PROBEDIRS]
+WTARGET = "/S/app1/components"
 DIRS_OUTCOME = "returned"
 
 # effective setting (named by the current key) -> attribute of app_settings
@@ -115,9 +128,10 @@ GROUPS: Dict[str, Dict[str, Any]] = {
                      "extra": ["libraries", "app_dirs"], "reg": [], "bases": [BASE0]},
     "downstream": {"keys": ["context_behavior", "template_cache_size", "multiline_tags", "dynamic_component_name"],
                    "extra": ["autodiscover", "tag_formatter"], "reg": ["context_behavior"], "bases": [BASE0]},
-    "paths": {"keys": ["dirs", "app_dirs", "libraries", "cache"],
-              "extra": ["static_files_allowed", "template_cache_size"], "reg": [], "bases": [SBASE, SNOBASE],
-              "comp": True},
+    "paths": {"keys": ["dirs", "app_dirs"], "extra": ["static_files_allowed", "libraries"], "reg": [],
+              "bases": [SBASE, SNOBASE], "comp": True},
+    "loading": {"keys": ["libraries", "cache", "autodiscover"], "extra": ["dirs", "template_cache_size"], "reg": [],
+                "bases": [BASE0, BASE1]},
     "misc": {"keys": ["debug_highlight_components", "debug_highlight_slots", "tag_formatter"],
              "extra": ["context_behavior", "cache"], "reg": ["tag_formatter"], "bases": [BASE0]},
 }
@@ -218,7 +232,8 @@ def show(v: Any) -> Any:
     """Readable form of typed values for evidence samples."""
     if isinstance(v, dict) and set(v) == {"t", "b", "i", "s", "l"}:
         t = v["t"]
-        return {"bool": v["b"], "int": v["i"], "str": v["s"], "list": v["l"], "none": None}.get(t, f"<{t}{':' + v['s'] if v['s'] else ''}>")
+        return {"bool": v["b"], "int": v["i"], "str": v["s"], "list": v["l"], "none": None,
+                "dirs": {"dirs": v["l"]}}.get(t, f"<{t}{':' + v['s'] if v['s'] else ''}>")
     if isinstance(v, dict):
         return {k: show(x) for k, x in v.items()}
     if isinstance(v, list):
@@ -363,13 +378,14 @@ def harness() -> Dict[str, Any]:
     return _H
 
 
-def world() -> None:
-    """The world of get_component_dirs(): a sandbox with existing directories = FS, /S/file.txt a file,
-    /S/missing nothing; the generated app vfx03app (root /S/app1) is installed for the rest of the process."""
+def make_world_files() -> None:
+    """The world of get_component_dirs() on disk: a sandbox with existing directories = FS, /S/file.txt a
+    file, /S/missing nothing, the generated app vfx03app (root /S/app1, importable) with an importable
+    python file in [app]/<d> for d in PROBEDIRS (and no python file anywhere else)."""
     if _ROOTS:
         return
+    import importlib.util
     import django_components as _djc
-    from django.test.utils import override_settings
     w = workdir("x03world").resolve()
     for d in FS:
         if d.startswith("/S/") and not d.startswith("/S/app1"):
@@ -377,18 +393,50 @@ def world() -> None:
     (w / "nobase").mkdir()
     (w / "file.txt").write_text("not a directory")
     app = w / "app1"
-    for sub in ("components", "ui"):
+    for sub in PROBEDIRS:
         (app / sub).mkdir(parents=True)
+        (app / sub / "vfx03_auto_probe.py").write_text("IMPORTED = True\n")
     (app / "__init__.py").write_text("")
     (app / "apps.py").write_text(
         f"from django.apps import AppConfig\n\n\nclass Cfg(AppConfig):\n    name = {APPNAME!r}\n")
-    import importlib.util
     spec = importlib.util.spec_from_file_location(APPNAME, app / "__init__.py", submodule_search_locations=[str(app)])
     mod = importlib.util.module_from_spec(spec)
     sys.modules[APPNAME] = mod
     spec.loader.exec_module(mod)
-    override_settings(INSTALLED_APPS=("django_components", APPNAME)).enable()     # until the process ends
     _ROOTS.update({"/S": str(w), "/DJC": str(Path(_djc.__file__).resolve().parent)})
+
+
+def world() -> None:
+    """make_world_files() + the generated app installed for the rest of the process."""
+    if _ROOTS:
+        return
+    from django.test.utils import override_settings
+    make_world_files()
+    override_settings(INSTALLED_APPS=("django_components", APPNAME)).enable()     # until the process ends
+
+
+def _forget_probe_modules() -> Dict[str, Any]:
+    saved = {}
+    for m in PROBEMODS + [f"{APPNAME}.{d}" for d in PROBEDIRS]:
+        saved[m] = sys.modules.pop(m, None)
+    return saved
+
+
+def _autodiscovered() -> str:
+    return "yes" if any(m in sys.modules for m in PROBEMODS) else "no"
+
+
+def _reload_triggered(target: str) -> str:
+    """Django's autoreloader reports a changed file below `target`: does a receiver ask for a reload
+    (django.utils.autoreload.trigger_reload = sys.exit(3))?"""
+    from django.utils.autoreload import file_changed
+    try:
+        file_changed.send(sender=None, file_path=Path(real(target)) / "sub" / "vfx03_probe.html")
+    except SystemExit:
+        return "yes"
+    except Exception as e:  # noqa: BLE001
+        return "raises:" + type(e).__name__
+    return "no"
 
 
 def _fresh_registry_behavior() -> Dict[str, Any]:
@@ -417,7 +465,7 @@ def _fresh_registry_behavior() -> Dict[str, Any]:
 
 def _new_obs() -> Dict[str, Any]:
     return {"failed": "", "dyn": [], "ml": "", "stock": False, "cached": [], "fresh": ABSENT,
-            "watch": False, "autod": False, "loaded": []}
+            "watch": "", "wtarget": WTARGET, "autod": "", "loaded": []}
 
 
 def _observe_started(obs: Dict[str, Any], counts: List[int], stock_tag_re) -> None:
@@ -460,14 +508,13 @@ def _observe_started(obs: Dict[str, Any], counts: List[int], stock_tag_re) -> No
     obs["fresh"] = _fresh_registry_behavior()
 
 
-def startup(counts: List[int]) -> Dict[str, Any]:
+def startup(counts: List[int], wtarget: str = WTARGET) -> Dict[str, Any]:
     """Run the app's start-up (AppConfig.ready()) under the current settings on what a new process
     has: stock django.template.base.tag_re, no dynamic component in the default registry, no template
     cache, library pool not imported.  Everything global is put back afterwards."""
     import django.template.base as tb
     from django.apps import apps
     from django.utils.autoreload import file_changed
-    import django_components.autodiscovery as dauto
     import django_components.cache as dcache
     from django_components import registry
     from django_components.components.dynamic import DynamicComponent
@@ -478,16 +525,12 @@ def startup(counts: List[int]) -> Dict[str, Any]:
         "tag_re": tb.tag_re, "cn": tb.Template.compile_nodelist, "render": tb.Template.render,
         "cache": dcache.template_cache, "recv": list(file_changed.receivers),
         "reg": dict(registry._registry), "tags": {k: set(v) for k, v in registry._tags.items()},
-        "libtags": dict(lib.tags), "auto": dauto.autodiscover,
+        "libtags": dict(lib.tags),
         "mods": {m: sys.modules.get(m) for m in LIBPOOL},
     }
-    ran: List[int] = []
-
-    def spy(*a, **kw):
-        ran.append(1)
-        return saved["auto"](*a, **kw)
-
+    saved["mods"].update(_forget_probe_modules())
     obs = _new_obs()
+    obs["wtarget"] = wtarget
     try:
         for name, cls in list(registry.all().items()):
             if cls is DynamicComponent:
@@ -496,18 +539,16 @@ def startup(counts: List[int]) -> Dict[str, Any]:
             sys.modules.pop(m, None)
         tb.tag_re = boot.STOCK["tag_re"]
         dcache.template_cache = None
-        dauto.autodiscover = spy
         try:
             apps.get_app_config("django_components").ready()
         except Exception as e:  # noqa: BLE001
             obs["failed"] = "ValueError" if isinstance(e, ValueError) else type(e).__name__
             return obs
-        obs["autod"] = bool(ran)
-        obs["watch"] = len(file_changed.receivers) > len(saved["recv"])
+        obs["autod"] = _autodiscovered()
+        obs["watch"] = _reload_triggered(wtarget)
         _observe_started(obs, counts, boot.STOCK["tag_re"])
         return obs
     finally:
-        dauto.autodiscover = saved["auto"]
         tb.tag_re = saved["tag_re"]
         tb.Template.compile_nodelist = saved["cn"]
         tb.Template.render = saved["render"]
@@ -532,10 +573,10 @@ def _child_main(conf: Dict[str, Any], counts: List[int]) -> Dict[str, Any]:
     import django
     import django.template.base as tb
     from django.conf import settings
-    from django.utils.autoreload import file_changed
     stock = tb.tag_re
+    make_world_files()                    # the same world, with the generated app installed from the start
     kw: Dict[str, Any] = dict(
-        BASE_DIR=conf["base"], SECRET_KEY="verif", INSTALLED_APPS=("django_components",), MIDDLEWARE=[],
+        BASE_DIR=real(conf["base"]), SECRET_KEY="verif", INSTALLED_APPS=("django_components", APPNAME), MIDDLEWARE=[],
         TEMPLATES=[{"BACKEND": "django.template.backends.django.DjangoTemplates", "DIRS": [],
                     "OPTIONS": {"builtins": ["django_components.templatetags.component_tags"],
                                 "loaders": [("django.template.loaders.locmem.Loader", {})]}}],
@@ -544,19 +585,14 @@ def _child_main(conf: Dict[str, Any], counts: List[int]) -> Dict[str, Any]:
     if conf["form"] != "none":
         kw["COMPONENTS"] = build_components(conf["form"], conf["given"])   # as a settings.py would
     settings.configure(**kw)
-    import django_components.autodiscovery as dauto
-    ran: List[int] = []
-    orig = dauto.autodiscover
-    dauto.autodiscover = lambda *a, **k: (ran.append(1), orig(*a, **k))[1]
-    before = len(file_changed.receivers)
     obs = _new_obs()
     try:
         django.setup()
     except Exception as e:  # noqa: BLE001
         obs["failed"] = "ValueError" if isinstance(e, ValueError) else type(e).__name__
         return obs
-    obs["autod"] = bool(ran)
-    obs["watch"] = len(file_changed.receivers) > before
+    obs["autod"] = _autodiscovered()
+    obs["watch"] = _reload_triggered(WTARGET)
     _observe_started(obs, counts, stock)
     return obs
 
@@ -758,10 +794,10 @@ def replay_startup(row: Dict[str, Any], flavour: int = 0,
             fail(f"templates held after {n} compiled", want[n], c, k)
     if o["fresh"] not in row["fresh"]:
         fail("context_behavior of a registry without own settings", row["fresh"], o["fresh"])
-    if V("bool", b=o["watch"]) not in row["watch"]:
-        fail("file_changed receiver installed", row["watch"], o["watch"])
-    if V("bool", b=o["autod"]) not in row["autod"]:
-        fail("autodiscovery ran", row["autod"], o["autod"])
+    if o["watch"] not in ("yes", "no") or V("bool", b=o["watch"] == "yes") not in row["watch"]:
+        fail(f"reload triggered by a changed file below {o['wtarget']}", row["watch"], o["watch"])
+    if V("bool", b=o["autod"] == "yes") not in row["autod"]:
+        fail("python file of an app-level component directory imported at start-up", row["autod"], o["autod"])
     if not any(sorted(x["l"]) == sorted(o["loaded"]) for x in row["libs"]):
         fail("library modules imported", row["libs"], o["loaded"])
     return bad
@@ -937,13 +973,15 @@ def record_history(rnd: random.Random, tid: int, length: int, startups: bool = T
                 ev("regread", k=k, v=own, w=old, obs=regread(k, own, old))
             elif startups:
                 n = rnd.choice([1, 3, 130, 160, 310])
-                o = startup([n])
+                o = startup([n], rnd.choice(FS))
+                if not o["failed"] and o["watch"] not in ("yes", "no"):
+                    o["failed"] = "reload-probe-" + o["watch"]       # must not pass silently
                 ev("startup", failed=o["failed"], dyn=o["dyn"], ml=o["ml"], stock=o["stock"], n=n,
                    cached=o["cached"][0][1] if o["cached"] else -1, fresh=o["fresh"], watch=o["watch"],
-                   autod=o["autod"], loaded=o["loaded"])
+                   wtarget=o["wtarget"], autod=o["autod"], loaded=o["loaded"])
     finally:
         live.close()
-    return {"id": tid, "base": base0, "fs": FS, "apps": APPS, "events": events}
+    return {"id": tid, "base": base0, "fs": FS, "apps": APPS, "probedirs": PROBEDIRS, "events": events}
 
 
 def _record_item(item: Tuple[int, int, int]) -> Dict[str, Any]:
@@ -1008,8 +1046,8 @@ def validate_histories(chk: Check, n: int, length: int, salt: int = 0) -> None:
 # ---------------------------------------------------------------- tiers
 def core(chk: Check, tier: str) -> None:
     quick = tier == "quick"
+    world()          # first: installing the app resets Django's template engines
     harness()
-    world()
     model_check_transitions(chk, list(GROUPS), rich=not quick, all_reads=not quick)
     model_check_startups(chk, STARTUP_GROUPS, rich=not quick)
     new_process_startups(chk, STARTUP_GROUPS, rich=not quick, every=23 if quick else 5)
@@ -1022,7 +1060,7 @@ def run(tier: str) -> int:
     chk = Check(PID, tier, "model_checking")
     core(chk, tier)
     chk.cov["exhaustive"] = True
-    chk.cov["rule"] = ("every transition of the complete settings graph of five key groups (MC_X03/MCSpec: all values "
+    chk.cov["rule"] = ("every transition of the complete settings graph of six key groups (MC_X03/MCSpec: all values "
                        "of the group's domains x dict / instance / no COMPONENTS) replayed on the real app_settings "
                        "under override_settings with warm reads before the call; every configuration of two key "
                        "groups (SSpec) replayed as an in-process start-up; random histories over all 17 keys "
@@ -1054,8 +1092,8 @@ def selftest(tier: str) -> int:
     from django.conf import settings
     from django_components.app_settings import ComponentsSettings, ContextBehavior, InternalSettings, defaults
     IS = InternalSettings
+    world()          # first: installing the app resets Django's template engines
     harness()
-    world()
 
     @contextmanager
     def patch(obj, name, new):
@@ -1203,7 +1241,61 @@ def selftest(tier: str) -> int:
             return orig.fget(self)
         return patch(dreg.ComponentRegistry, "settings", property(get))
 
+    def dirs_variant(variant: str):
+        """get_component_dirs() re-implemented as the library does it (including its known deviation),
+        with one bug."""
+        import django_components as djc
+        import django_components.util.loader as dload
+        from django.apps import apps
+
+        def impl(include_apps: bool = True):
+            dirs = aps.app_settings.DIRS
+            if variant == "empty-dirs-means-default" and not dirs:
+                dirs = [Path(settings.BASE_DIR) / "components"]
+            if variant == "first-dirs-entry-only":
+                dirs = list(dirs)[:1]
+            out = set()
+            if include_apps or variant == "include-apps-flag-ignored":
+                for conf in apps.get_app_configs():
+                    for ad in aps.app_settings.APP_DIRS:
+                        p = Path(conf.path).joinpath(ad)
+                        if p.exists() or variant == "app-dir-existence-not-checked":
+                            out.add(p)
+            for d in dirs:
+                if isinstance(d, (tuple, list)):
+                    d = d[0] if variant == "tuple-prefix-taken-for-the-path" else d[1]
+                if not Path(d).is_absolute():
+                    if variant == "relative-path-silently-skipped":
+                        continue
+                    raise ValueError(f"COMPONENTS.dirs must contain absolute paths, got '{d}'")
+                out.add(Path(d).resolve())
+            return list(out)
+        from contextlib import ExitStack
+
+        @contextmanager
+        def both():
+            with ExitStack() as st:
+                st.enter_context(patch(dload, "get_component_dirs", impl))
+                st.enter_context(patch(djc, "get_component_dirs", impl))
+                yield
+        return both
+
+    def libraries_not_imported():
+        import django_components.autodiscovery as dauto
+        return patch(dauto, "import_libraries", lambda *a, **k: [])
+
+    def reload_watch_never_installed():
+        return patch(dapps, "_watch_component_files_for_autoreload", lambda: None)
+
     probes = [
+        ("component-dirs: empty dirs list means default", dirs_variant("empty-dirs-means-default")),
+        ("component-dirs: first dirs entry only", dirs_variant("first-dirs-entry-only")),
+        ("component-dirs: include_apps flag ignored", dirs_variant("include-apps-flag-ignored")),
+        ("component-dirs: app dir existence not checked", dirs_variant("app-dir-existence-not-checked")),
+        ("component-dirs: tuple prefix taken for the path", dirs_variant("tuple-prefix-taken-for-the-path")),
+        ("component-dirs: relative path silently skipped", dirs_variant("relative-path-silently-skipped")),
+        ("libraries-not-imported-at-start-up", libraries_not_imported),
+        ("reload-watch-never-installed", reload_watch_never_installed),
         ("falsy-value-treated-as-unset", falsy_is_unset),
         ("settings-memoised-at-first-access", settings_memoised),
         ("settings-memoised-per-object-id", memoised_per_object),
@@ -1247,14 +1339,47 @@ def selftest(tier: str) -> int:
                 self.keyed += 1
             super().violation(case, detail, key)
 
+    import django_components as djc
+    import django_components.util.loader as dload
+    from contextlib import ExitStack
+    fixed_dirs = _patched_get_component_dirs()
     chk = Counting(PID, "quick", "other", silent=True)
-    with patch(IS, "TEMPLATE_CACHE_SIZE", property(fixed_size)):
+    with ExitStack() as st:
+        st.enter_context(patch(IS, "TEMPLATE_CACHE_SIZE", property(fixed_size)))
+        if fixed_dirs is not None:
+            st.enter_context(patch(dload, "get_component_dirs", fixed_dirs))
+            st.enter_context(patch(djc, "get_component_dirs", fixed_dirs))
         body(chk)
     ok = chk.violations == 0 and chk.keyed == 0
-    print(f"  explicit None honoured in the dict form (repair emulated in-process): violations={chk.violations} "
-          f"known-finding cases={chk.keyed} -> {'clean' if ok else 'NOT CLEAN'}")
+    print(f"  both repairs in-process (explicit None honoured in the dict form: emulated; get_component_dirs: "
+          f"{'the function of the patched copy' if fixed_dirs else 'diff not applicable, current function'}): "
+          f"violations={chk.violations} known-finding cases={chk.keyed} -> {'clean' if ok else 'NOT CLEAN'}")
     ok2 = _validate_proposed_diff()
     return rc if ok and ok2 else 1
+
+
+def _patched_get_component_dirs():
+    """get_component_dirs of a COPY of util/loader.py with proposed_fixes/X03-dirs-entry-not-a-directory*.diff
+    applied (None if there is no such diff or it no longer applies)."""
+    import importlib.util
+    import shutil
+    import subprocess
+    from .core import REPO, ROOT
+    diffs = sorted((ROOT / "proposed_fixes").glob(f"{PID}-dirs-entry-not-a-directory*.diff"))
+    if not diffs:
+        return None
+    w = workdir("x03fix2")
+    dst = w / "src" / "django_components" / "util"
+    dst.mkdir(parents=True)
+    shutil.copy(REPO / "src" / "django_components" / "util" / "loader.py", dst / "loader.py")
+    p = subprocess.run(["patch", "-p1", "-s", "-d", str(w), "-i", str(diffs[0])], capture_output=True, text=True)
+    if p.returncode != 0:
+        print(f"  proposed diff {diffs[0].name}: does not apply to the current tree (already fixed?)")
+        return None
+    spec = importlib.util.spec_from_file_location("vfx03_patched_loader", dst / "loader.py")
+    mod = importlib.util.module_from_spec(spec)
+    spec.loader.exec_module(mod)
+    return mod.get_component_dirs
 
 
 def _validate_proposed_diff() -> bool:
@@ -1298,8 +1423,8 @@ def replay(path: str) -> int:
     exported; a history is re-recorded event by event and validated by Trace_X03 again)."""
     from . import boot
     boot.setup()
+    world()          # first: installing the app resets Django's template engines
     harness()
-    world()
     d = json.load(open(path))
     case = d["case"]
     kind = case.get("kind")
@@ -1355,7 +1480,7 @@ def _rerecord(case: Dict[str, Any]) -> Dict[str, Any]:
             elif op == "compdirs":
                 e["obs"] = compdirs(e["inc"])
             elif op == "startup":
-                o = startup([e["n"]])
+                o = startup([e["n"]], e.get("wtarget", WTARGET))
                 e.update(failed=o["failed"], dyn=o["dyn"], ml=o["ml"], stock=o["stock"],
                          cached=o["cached"][0][1] if o["cached"] else -1, fresh=o["fresh"], watch=o["watch"],
                          autod=o["autod"], loaded=o["loaded"])
@@ -1365,7 +1490,7 @@ def _rerecord(case: Dict[str, Any]) -> Dict[str, Any]:
             out.append(e)
     finally:
         live.close()
-    return {"id": 1, "base": case["base"], "fs": FS, "apps": APPS, "events": out}
+    return {"id": 1, "base": case["base"], "fs": FS, "apps": APPS, "probedirs": PROBEDIRS, "events": out}
 
 
 def _import_patched(path: str) -> None:
